@@ -297,7 +297,8 @@ func vpH_C07_populated() {
 	cell := vpTypeNames[ti] + "." + fields[f].Name
 	var y Item
 	var err error
-	if vpBool() {
+	isJSON := vpBool()
+	if isJSON {
 		cell += "/json"
 		var b []byte
 		b, err = vpMarshalItem(x)
@@ -314,6 +315,14 @@ func vpH_C07_populated() {
 	if y != nil {
 		vpAssert("populated/go-type/"+cell, vpSameGoType(x, y))
 		vpAssert("populated/type-name/"+cell, y.GetType() == x.GetType())
+		// ... and carries the property that was written
+		want := vpCloneItem(x)
+		if isJSON {
+			vpC01Normal(want, ti, f)
+		}
+		if vpSameGoType(x, y) {
+			vpDiffItems("populated/carries/"+cell, want, y, nil)
+		}
 	}
 	vpReach("end")
 }
